@@ -30,9 +30,9 @@ RULE = ("real cmd_receive.Receiver in a fresh sandbox <tmp>/{canaries outside, c
         "refused); distinct = (offer kind, name, members, configuration, outcome).")
 ASSUMPTIONS = ["the audit hook sees every Python-level filesystem mutation (open for write, rename, remove, "
                "mkdir, rmdir, chmod, chown, link, symlink, truncate, utime, shutil.*)",
-               "<dest>.tmp is part of the destination's footprint"]
-FLOORS = {"quick": {"writes_observed": 300, "transfers_completed": 60, "refusals": 40, "evil_members": 200},
-          "thorough": {"writes_observed": 12000, "transfers_completed": 2500, "refusals": 1500, "evil_members": 8000}}
+               "a temporary file <dest>.tmp / <dest>.<n>.tmp that did not exist before is part of the destination's footprint; a file of that name that did exist is the user's and must survive"]
+FLOORS = {"quick": {"writes_observed": 300, "transfers_completed": 60, "refusals": 40, "evil_members": 200, "tmp_sibling_cases": 40},
+          "thorough": {"writes_observed": 12000, "transfers_completed": 2500, "refusals": 1500, "evil_members": 8000, "tmp_sibling_cases": 1500}}
 APPID = "lothar.com/wormhole/text-or-file-xfer"
 NAMES = ["good.txt", "/etc/passwd-vt", "/tmp/abs-vt", "../up.txt", "../../up2", "a/b/c.txt", "dir/", "trail//", "a\\b.txt",
          "..\\..\\win", "", ".", "..", "...", "x" * 200, "ünï✓", "ctl\x07\x1bname", "new\nline", " spaced ", "-rf", "~",
@@ -122,6 +122,13 @@ def cases(tier, seed, prep=None):
                                 "accept": False, "answer": ans, "pre": ["absent", "dir", "file"][k % 3],
                                 "members": pick_members(rng) if kind == "directory" else []})
                     k += 1
+    # the user already has a file called <destination>.tmp next to where the destination will be
+    for i in range(60 if tier == "quick" else 2000):
+        kind = "file" if i % 3 != 2 else "directory"
+        out.append({"seed": seed * 1000003 + 580000 + i, "offer": kind, "name_i": [0, NAMES.index("good.txt")][i % 2] if "good.txt" in NAMES else 0,
+                    "out_i": rng.choice([0, 0, OUTS.index("pre.dir")]), "accept": rng.choice([True, True, False]),
+                    "answer": "y", "pre": "absent", "tmp_sibling": True,
+                    "members": pick_members(rng) if kind == "directory" else []})
     # the destination name already exists as a symbolic link that leads out of the working directory
     for i in range(90 if tier == "quick" else 3000):
         kind = "file" if i % 2 == 0 else "directory"
@@ -130,6 +137,16 @@ def cases(tier, seed, prep=None):
                     "answer": rng.choice(["y", "y", "n"]), "pre": ["symlink-dangling", "symlink-file", "symlink-dir"][i % 3],
                     "members": pick_members(rng) if kind == "directory" else []})
     return out
+
+
+def is_tmp_of(path, dest):
+    """the receiver's temporary file for destination `dest`: <dest>.tmp or <dest>.<n>.tmp, next to it"""
+    if path == dest + ".tmp":
+        return True
+    if path.startswith(dest + ".") and path.endswith(".tmp"):
+        mid = path[len(dest) + 1:-4]
+        return mid.isdigit()
+    return False
 
 
 def build_zip(rng, members, destname):
@@ -253,6 +270,15 @@ def _run(spec, world, base):
                     f.write(b"pre-existing destination dir")
     else:
         pre = "absent" if not (bn and os.path.lexists(os.path.join(cwd, bn))) else ("file" if os.path.isfile(os.path.join(cwd, bn)) else "dir")
+    # a file of the user's own whose name is the destination's plus ".tmp" (any other existing file must survive a receive)
+    tmp_sibling = 0
+    if spec.get("tmp_sibling") and bn and bn not in (".", "..") and "\x00" not in bn and len(bn) < 200 and "/" not in bn:
+        for dd in ([cwd] if out is None else [cwd, os.path.join(cwd, "pre.dir")]):
+            tp = os.path.join(dd, bn + ".tmp")
+            if os.path.isdir(dd) and not os.path.lexists(tp):
+                with open(tp, "wb") as f:
+                    f.write(b"the user's own file, not ours to touch")
+                tmp_sibling = 1
     if spec["offer"] == "file":
         payload = rng.randbytes(rng.choice([0, 10, 20000]))
         offer = {"file": {"filename": name, "filesize": len(payload)}}
@@ -302,7 +328,7 @@ def _run(spec, world, base):
         ap = os.path.join(base, w_rel)
         if out is not None and parent is None:
             d = os.path.abspath(os.path.join(cwd, out))       # --output-file names the destination itself
-            if ap == d or ap == d + ".tmp" or ap.startswith(d + os.sep):
+            if ap == d or is_tmp_of(ap, d) or ap.startswith(d + os.sep):
                 dests.add(d)
                 continue
             viol.append({"key": "C05/write-outside-output-file", "msg": "wrote %r but --output-file is %r" % (w_rel, out), "witness": wit})
@@ -314,7 +340,9 @@ def _run(spec, world, base):
             continue
         first = rel.split(os.sep)[0]
         d = os.path.join(parent, first)
-        if first.endswith(".tmp") and rel == first:
+        if rel == first and bn and is_tmp_of(d, os.path.join(parent, bn)):
+            d = os.path.join(parent, bn)
+        elif first.endswith(".tmp") and rel == first:
             d = d[:-4]
         dests.add(d)
     if len(dests) > 1:
@@ -355,7 +383,7 @@ def _run(spec, world, base):
     evil = sum(1 for m in listed if m.startswith("..") or m.startswith("/") or "/../" in m or m in ("", ".", "..", "./", "../") or "evil" in m or m in ("link-to-outside", "setuid", "zeroperm", "dirperm-file"))
     return {"violations": viol, "nontrivial": nontrivial,
             "counters": {"writes_observed": len(log), "transfers_completed": int(completed), "refusals": int(refused),
-                         "evil_members": evil, "offer_" + spec["offer"]: 1, "pre_symlink_cases": int(str(pre).startswith("symlink")), "rejected_by_receiver": int(ro != "success"),
+                         "evil_members": evil, "offer_" + spec["offer"]: 1, "pre_symlink_cases": int(str(pre).startswith("symlink")), "tmp_sibling_cases": tmp_sibling, "rejected_by_receiver": int(ro != "success"),
                          "paths_changed": len(changed)},
             "sets": {"receiver_errors": [type(rr.failure.value).__name__ + ":" + str(rr.failure.value)[:50]] if rr.failure else []},
             "sample": {"spec": spec, "offer_name": repr(name), "members": listed, "output_file": out, "pre": pre, "receiver": ro,
